@@ -8,10 +8,13 @@ import (
 	"crypto/elliptic"
 	"fmt"
 	"math/big"
+	"sync"
 	"testing"
 
 	cose "github.com/veraison/go-cose"
+
 	"pgregory.net/rapid"
+	"verifharness/bridge"
 
 	"verifharness/gen"
 	rc "verifharness/refcbor"
@@ -118,6 +121,25 @@ func opsAllow(c *c14Case, op int64) bool {
 	return false
 }
 
+// c14PriorKeys: serialised keys (one with every optional member: kid, alg, key_ops,
+// Base IV, an unknown parameter; one symmetric) that a Key variable held before
+// it is reused.
+var c14PriorKeys = sync.OnceValue(func() [][]byte {
+	x := make([]byte, 32)
+	x[0] = 1
+	full := cose.Key{Type: cose.KeyTypeOKP, ID: []byte("prior"), Algorithm: cose.AlgorithmEdDSA, Ops: []cose.KeyOp{cose.KeyOpVerify}, BaseIV: []byte{9, 9},
+		Params: map[any]any{cose.KeyLabelOKPCurve: cose.CurveEd25519, cose.KeyLabelOKPX: x, int64(-70): "prior"}}
+	b1, err := full.MarshalCBOR()
+	if err != nil {
+		panic(err)
+	}
+	b2, err := cose.NewKeySymmetric([]byte("prior-symmetric-key-material-123")).MarshalCBOR()
+	if err != nil {
+		panic(err)
+	}
+	return [][]byte{b1, b2}
+})
+
 // checkC14: Go key -> COSE_Key -> bytes -> COSE_Key -> Go key is the identity,
 // x and y are serialised at full field size, and the derived signer/verifier
 // interoperate (also with the reference verifier).
@@ -200,6 +222,29 @@ func checkC14(c c14Case) error {
 	if err := ks2.UnmarshalCBOR(append([]byte{}, bs...)); err != nil {
 		return finding("own-key-rejected", "Key.UnmarshalCBOR rejects Key.MarshalCBOR output (private key): %v\n%x", err, bs)
 	}
+	// parsing into a Key variable that held another key before gives the same key
+	for _, prior := range c14PriorKeys() {
+		var used cose.Key
+		if err := used.UnmarshalCBOR(prior); err != nil {
+			return fmt.Errorf("harness: prior key: %v", err)
+		}
+		for _, in := range [][]byte{bs, bp} {
+			var fresh cose.Key
+			if err := fresh.UnmarshalCBOR(append([]byte{}, in...)); err != nil {
+				return finding("own-key-rejected", "%v", err)
+			}
+			if err := used.UnmarshalCBOR(append([]byte{}, in...)); err != nil {
+				return finding("parse-depends-on-destination", "parsing into a Key that held another key before fails: %v\n%x", err, in)
+			}
+			if a, b := bridge.DumpValue(&used), bridge.DumpValue(&fresh); a != b {
+				return finding("parse-depends-on-destination", "parsing a serialised key into a Key variable that held another key before gives a different key than parsing into a fresh one\nused =%s\nfresh=%s\n%x", a, b, in)
+			}
+		}
+		if _, err := used.PublicKey(); err != nil {
+			return finding("public-key-lost", "PublicKey() on a key parsed into a used variable fails: %v", err)
+		}
+	}
+	stats.Class("parsed-into-used-variable")
 	priv2, err := ks2.PrivateKey()
 	if err != nil {
 		return finding("private-key-lost", "PrivateKey() on the decoded key fails: %v\n%x", err, bs)
